@@ -63,6 +63,19 @@ def removed_at(E, v, p):
                   FA([j], z3.Implies(z3.And(p <= j, j < n0 - 1), e1[j] == e0[j + 1]), patterns=[e1[j]]))
 
 
+def index_after_removal(E, v, p):
+    """the index after removing position p: that key is gone, later positions moved down by one (explicit form, implied by
+    WF' and removed_at; stated so that callers need not re-derive it)"""
+    dom0, val0 = Dv(E.s0, v)
+    dom1, val1 = Dv(E.s1, v)
+    n0, e0 = L(E.s0, v)
+    rid = ida(E)[e0[p]]
+    k = qv("rk", Id)
+    return FA([k], z3.And(z3.Select(dom1, k) == z3.And(z3.Select(dom0, k), k != rid),
+                          z3.Implies(z3.Select(dom1, k), val1[k] == z3.If(val0[k] > p, val0[k] - 1, val0[k]))),
+              patterns=[z3.Select(dom1, k)])
+
+
 def inserted_at(E, v, p, x):
     n0, e0 = L(E.s0, v)
     n1, e1 = L(E.s1, v)
@@ -186,7 +199,7 @@ def _pop_in(E):
 def _pop_post(E):
     n0, e0 = L(E.s0, E["self"])
     p = norm(_pop_idx(E), n0)
-    return post_wf(E, z3.And(E.res.t == e0[p], removed_at(E, E["self"], p)))
+    return post_wf(E, z3.And(E.res.t == e0[p], removed_at(E, E["self"], p), index_after_removal(E, E["self"], p)))
 
 
 def _argc(n):
@@ -226,7 +239,8 @@ def _rm_found(E):
 
 def _rm_post(E):
     dom, val = Dv(E.s0, E["self"])
-    return post_wf(E, removed_at(E, E["self"], val[key_of(E, E["x"])]))
+    p = val[key_of(E, E["x"])]
+    return post_wf(E, z3.And(removed_at(E, E["self"], p), index_after_removal(E, E["self"], p)))
 
 
 add("remove", [SELF, ("x", TStr())], [
@@ -246,7 +260,8 @@ def _di_in(E):
 
 def _di_post(E):
     n0, _ = L(E.s0, E["self"])
-    return post_wf(E, removed_at(E, E["self"], norm(E["index"].t, n0)))
+    p = norm(E["index"].t, n0)
+    return post_wf(E, z3.And(removed_at(E, E["self"], p), index_after_removal(E, E["self"], p)))
 
 
 add("__delitem__", [SELF, ("index", TInt())], [
@@ -568,3 +583,166 @@ add("__init__", [("self", TCustom(_blank_self)), ("*args", TTuple([]))], [
 for _c in REG.get("DictList.__init__").cases:
     _c.modifies_on_raise = _init_mod
 REG.get("DictList.__init__").cases[1].domain = lambda E: WF(E, E.s0, _init_other(E))   # a DictList argument is coherent
+
+
+# ================================================================ removal of several items:  -=  and  -
+OTHER = ("other", TList(OBJ))
+
+
+def _found_all_distinct(E, st=None):
+    """every item is the identical element found under its id, and no element is named twice"""
+    st = st or E.s0
+    m, x = L(E.s0, E["other"])
+    n0, e0 = L(E.s0, E["self"])
+    dom0, val0 = Dv(E.s0, E["self"])
+    idA = ida(E)
+    i, j = qv("fi"), qv("fj")
+    return z3.And(
+        FA([i], z3.Implies(z3.And(0 <= i, i < m), z3.And(z3.Select(dom0, idA[x[i]]), e0[val0[idA[x[i]]]] == x[i])), patterns=[x[i]]),
+        FA([i, j], z3.Implies(z3.And(0 <= i, i < j, j < m), idA[x[i]] != idA[x[j]]), patterns=[z3.MultiPattern(x[i], x[j])]))
+
+
+def _removed_view(E, st, target, t):
+    """`target` (in state st) is self's original content minus the first t items of `other`, order kept"""
+    m, x = L(E.s0, E["other"])
+    n0, e0 = L(E.s0, E["self"])
+    dom0, val0 = Dv(E.s0, E["self"])
+    n, e = L(st, target)
+    dom, val = Dv(st, target)
+    idA = ida(E)
+    k, k2, j, w = qv("vk", Id), qv("vk2", Id), qv("vj"), qv("vw")
+    return z3.And(
+        WF(E, st, target), n == n0 - t,
+        # surviving keys are original keys holding the same element
+        FA([k], z3.Implies(z3.Select(dom, k), z3.And(z3.Select(dom0, k), e[val[k]] == e0[val0[k]])), patterns=[z3.Select(dom, k)]),
+        # the first t items are gone, every other original key survives
+        FA([j], z3.Implies(z3.And(0 <= j, j < t), z3.Not(z3.Select(dom, idA[x[j]]))), patterns=[x[j]]),
+        FA([k], z3.Implies(z3.And(z3.Select(dom0, k), z3.Not(z3.Select(dom, k))),
+                           z3.Exists([w], z3.And(0 <= w, w < t, idA[x[w]] == k))), patterns=[z3.Select(dom0, k)]),
+        # relative order kept
+        FA([k, k2], z3.Implies(z3.And(z3.Select(dom, k), z3.Select(dom, k2)), (val[k] < val[k2]) == (val0[k] < val0[k2])),
+           patterns=[z3.MultiPattern(z3.Select(dom, k), z3.Select(dom, k2))]))
+
+
+def _isub_post(E):
+    m, _ = L(E.s0, E["other"])
+    return z3.And(z3.BoolVal(isinstance(E.res, VObj) and E.res.oid == E["self"].oid), _removed_view(E, E.s1, E["self"], m))
+
+
+def _isub_inv0(E, Lc):
+    """validation loop: the positions seen so far are those of the first i items, pairwise different; self untouched"""
+    m, x = L(E.s0, E["other"])
+    n0, e0 = L(E.s0, E["self"])
+    dom0, val0 = Dv(E.s0, E["self"])
+    idA = ida(E)
+    pos = Lc.var("positions")
+    rec = Lc.st.objs[pos.oid]
+    t = Lc.i
+    i, j, p, w = qv("zi"), qv("zj"), qv("zp"), qv("zw")
+    if rec.get("lazy"):
+        return t == 0
+    P = rec["dom"]
+    return z3.And(
+        FA([i], z3.Implies(z3.And(0 <= i, i < t), z3.And(z3.Select(dom0, idA[x[i]]), e0[val0[idA[x[i]]]] == x[i],
+                                                       z3.Select(P, val0[idA[x[i]]]))), patterns=[x[i]]),
+        FA([p], z3.Implies(z3.Select(P, p), z3.Exists([w], z3.And(0 <= w, w < t, val0[idA[x[w]]] == p))), patterns=[z3.Select(P, p)]),
+        FA([i, j], z3.Implies(z3.And(0 <= i, i < j, j < t), idA[x[i]] != idA[x[j]]), patterns=[z3.MultiPattern(x[i], x[j])]))
+
+
+def _isub_inv1(E, Lc):
+    return z3.And(_found_all_distinct(E), _removed_view(E, Lc.st, E["self"], Lc.i))
+
+
+def _positions_loc(E, Lc):
+    pos = Lc.var("positions")
+    if Lc.st.objs[pos.oid].get("lazy"):
+        # typed at first use: positions are ints
+        return [("setlazy", pos, "int")]
+    return [("set", pos)]
+
+
+add("__isub__", [SELF, OTHER], [
+    Case("all_present_once", requires=_found_all_distinct, ensures=_isub_post),
+    Case("missing_or_repeated", requires=lambda E: z3.Not(_found_all_distinct(E)), raises="ValueError", ensures=unchanged),
+], modifies=dl_locs, result="self",
+    loops={0: LoopSpec(_isub_inv0, _positions_loc), 1: LoopSpec(_isub_inv1, lambda E, Lc: dl_locs(E))})
+
+
+def _sub_total(Lc):
+    return Lc.var("total")
+
+
+def _found_prefix(E, t):
+    """the first t items were each the identical element found under its id, pairwise different"""
+    m, x = L(E.s0, E["other"])
+    n0, e0 = L(E.s0, E["self"])
+    dom0, val0 = Dv(E.s0, E["self"])
+    idA = ida(E)
+    i, j = qv("pi"), qv("pj")
+    return z3.And(
+        FA([i], z3.Implies(z3.And(0 <= i, i < t), z3.And(z3.Select(dom0, idA[x[i]]), e0[val0[idA[x[i]]]] == x[i])), patterns=[x[i]]),
+        FA([i, j], z3.Implies(z3.And(0 <= i, i < j, j < t), idA[x[i]] != idA[x[j]]), patterns=[z3.MultiPattern(x[i], x[j])]))
+
+
+def _sub_inv(E, Lc):
+    return z3.And(_found_prefix(E, Lc.i), _removed_view(E, Lc.st, _sub_total(Lc), Lc.i))
+
+
+def _sub_post(E):
+    m, _ = L(E.s0, E["other"])
+    return z3.And(_is_new(E), _removed_view(E, E.s1, E.res, m))
+
+
+def _sub_loop_mod(E, Lc):
+    t = _sub_total(Lc)
+    return [("list", t), ("dict", dict_of(Lc.st, t))]
+
+
+add("__sub__", [SELF, OTHER], [
+    Case("all_present_once", requires=_found_all_distinct, ensures=_sub_post),
+    Case("missing_or_repeated", requires=lambda E: z3.Not(_found_all_distinct(E)), raises="ValueError"),
+], result=new_dictlist, loops={0: LoopSpec(_sub_inv, _sub_loop_mod)})
+
+
+# ================================================================ simple slices (step None or 1)
+def _sl_bounds(E, name):
+    sl = E[name]
+    n0, _ = L(E.s0, E["self"])
+    from pyvc.builtins import slice_bounds
+    return slice_bounds(E.eng, E.s0, sl, n0)
+
+
+def _getslice_post(E):
+    lo, hi = _sl_bounds(E, "i")
+    n0, e0 = L(E.s0, E["self"])
+    n1, e1 = L(E.s1, E.res)
+    cnt = z3.If(hi > lo, hi - lo, 0)
+    j = qv("gs")
+    return z3.And(_is_new(E), WF(E, E.s1, E.res), n1 == cnt,
+                  FA([j], z3.Implies(z3.And(0 <= j, j < cnt), e1[j] == e0[lo + j]), patterns=[e1[j]]))
+
+
+def _slice_type(st, name):
+    lo, hi = z3.Int(name + "_lo"), z3.Int(name + "_hi")
+    return st, VSlice(VInt(lo), VInt(hi), NONE)
+
+
+_gs = typed(pcase(Case("slice_step_one", ensures=_getslice_post), i=TCustom(_slice_type)), i=VSlice)
+_gs.result = new_dictlist
+REG.get("DictList.__getitem__").cases.append(_gs)
+
+
+def _delslice_post(E):
+    lo, hi = _sl_bounds(E, "index")
+    n0, e0 = L(E.s0, E["self"])
+    n1, e1 = L(E.s1, E["self"])
+    cnt = z3.If(hi > lo, hi - lo, 0)
+    j = qv("ds")
+    return post_wf(E, z3.And(n1 == n0 - cnt,
+                             FA([j], z3.Implies(z3.And(0 <= j, j < lo), e1[j] == e0[j]), patterns=[e1[j]]),
+                             FA([j], z3.Implies(z3.And(lo <= j, j < n0 - cnt), e1[j] == e0[j + cnt]), patterns=[e1[j]])))
+
+
+_ds = typed(pcase(Case("slice_step_one", ensures=_delslice_post), index=TCustom(_slice_type)), index=VSlice)
+REG.get("DictList.__delitem__").cases.append(_ds)
+REG.get("DictList.__delitem__").modifies = lambda E: dl_locs(E) + [havoc_index_attr(E)]
